@@ -251,3 +251,77 @@ def check_rel(prop, tier, seed, n_quick, n_thorough, grammars=None, rule="", **k
     res.assumptions += ["TLC and the CommunityModules Json/IOUtils overrides", "harness event projection (harness/src/sess.rs)",
                         "resource-limit stops are not violations here"]
     return res
+
+
+def check_split(prop, tier, seed, n_quick, n_thorough):
+    """C02 / C13: lock-step single-byte vs multi-byte engines (harness split, spec/Trace_Split.tla)"""
+    res = core.Result(prop, tier, seed)
+    rng = random.Random(f"{prop}-split-{seed}")
+    n = n_quick if tier == "quick" else n_thorough
+    gs = [g for g in corpus.all_grammars() if g[0] not in ("tok_refs", "tok_range")]
+    if prop == "C13":
+        # forced text: fixed keys, consts, enums sharing prefixes, literal-heavy Lark grammars
+        pref = [g for g in gs if g[0].startswith("js:") or g[0] in ("forced_then_free", "alt_prefixes", "keywords", "fixed",
+                                                                      "ab_abc", "json_in_lark", "doc_think", "kw_id")]
+        gs = gs + pref * 2
+    eps = []
+    for i in range(n):
+        name, g = gs[(i + seed * 13) % len(gs)] if i < len(gs) else rng.choice(gs)
+        canonical = 1 if (prop == "C13" or rng.random() < 0.3) else 0
+        v1 = vocab_for(rng, g, rng.choice(["syn", "lang", "lang", "bpe"]), canonical)
+        v2 = vocab_for(rng, g, rng.choice(["syn", "lang", "bpe"]), 0) if rng.random() < 0.6 else None
+        eps.append({"gid": name, "gram": g, "v1": v1, "v2": v2, "steps": rng.randint(8, 20), "seed": rng.randrange(1 << 30),
+                    "hints": hints_for(g), "max_probe": 350, "slices": rng.choice([[], "default"])})
+    wd = core.workdir(f"{prop}-{tier}")
+    core.build_harness()
+    nsh = 12 if tier == "quick" else 16
+    shards = [eps[i::nsh] for i in range(nsh) if eps[i::nsh]]
+
+    def go(ix):
+        jp = os.path.join(wd, f"job{ix}.json")
+        tp = os.path.join(wd, f"trace{ix}.ndjson")
+        json.dump({"episodes": shards[ix]}, open(jp, "w"))
+        p = core.run_bin("split", [jp, tp], timeout=7200)
+        st = json.loads(p.stdout.strip().splitlines()[-1])
+        tot = core.validate_file("Trace_Split", tp, prop, tier, seed, timeout=7200, tagbase=f"{prop}{ix}")
+        return st, tot, tp
+
+    outs = core.parallel(go, list(range(len(shards))), workers=nsh)
+    for ix, (st, tot, tp) in enumerate(outs):
+        res.add_validation(tot)
+        res.cov["evaluations"] += st["events"]
+        res.cov["token_probes"] = res.cov.get("token_probes", 0) + sum(e.get("probes", 0) for e in st["episodes"])
+        res.cov["commits"] = res.cov.get("commits", 0) + sum(e.get("commits", 0) for e in st["episodes"])
+        for rj in tot["rejects"]:
+            res.violation(signature(rj), rj["replay"])
+        if ix == 0:
+            for ln in core.read_lines(tp)[1:7]:
+                res.sample(json.loads(ln) if len(ln) < 1500 else ln[:300] + "...")
+        lines = core.read_lines(tp)
+        cur = []
+        for ln in lines:
+            if '"ev":"Init"' in ln[:40]:
+                if len(cur) > 4:
+                    res.distinct(hashlib.sha1("\n".join(cur[1:]).encode()).hexdigest())
+                cur = []
+            cur.append(ln)
+    res.cov["rule"] = ("episodes = one grammar with a single-byte engine and one or two multi-byte engines (synthetic / "
+                       "language-derived / BPE-like vocabularies, canonical or not) walked in lock step; every multi-byte "
+                       "mask, accepting flag, forced byte and fast-forward token is compared with the single-byte engine's "
+                       "byte-level answers by TLC (spec/Trace_Split.tla)")
+    # negative control: flip one probe count
+    lines = core.read_lines(os.path.join(wd, "trace0.ndjson"))
+    for i, ln in enumerate(lines):
+        if '"ev":"Mask"' in ln[:30] and '"ok":1' in ln:
+            ev = json.loads(ln)
+            if ev["set"]:
+                ev["set"] = ev["set"][1:]
+                s, e = core.episode_bounds(lines, i)
+                bp = os.path.join(wd, "negctl.ndjson")
+                open(bp, "w").write("\n".join(lines[s:i] + [json.dumps(ev)]) + "\n")
+                r = core.tlc_trace("Trace_Split", bp, tag=f"neg-{prop}")
+                res.cov["negative_controls"].append({"dropped_mask_token_rejected": not r["accepted"]})
+                if r["accepted"]:
+                    raise core.ToolError("negative control accepted")
+                break
+    return res
